@@ -209,6 +209,7 @@ func verifStubNewProxyConfigurerByType(proxyType ProxyType) ProxyConfigurer {
 //verif:impls *~/pkg/config/v1.TCPProxyConfig *~/pkg/config/v1.UDPProxyConfig *~/pkg/config/v1.HTTPProxyConfig *~/pkg/config/v1.HTTPSProxyConfig *~/pkg/config/v1.TCPMuxProxyConfig *~/pkg/config/v1.STCPProxyConfig *~/pkg/config/v1.XTCPProxyConfig *~/pkg/config/v1.SUDPProxyConfig
 //verif:props C18
 //verif:modifies
+//verif:inline-known
 func verif_ProxyConfigurer_GetBaseConfig(c ProxyConfigurer) {
 	verif.Requires(c != nil, "configuration_present")
 	b := c.GetBaseConfig()
